@@ -390,22 +390,29 @@ class Pipe<StageClass::kGenerator, CurStage, PipeNext> {
     ssize_t numThreads = std::max<ssize_t>(
         1, std::min(tasks_.numPoolThreads(), StageLimits<CurStage>::limit(stage_)));
     completion_ = std::make_unique<CompletionEventImpl>(static_cast<int>(numThreads));
+    // RAII guard ensures the completion event is signaled even if an exception
+    // propagates out of pipeNext_.execute() (e.g. when ConcurrentTaskSet runs a
+    // downstream stage inline and it throws). Without this, wait() would hang on
+    // completion_->wait(0) because the count is never decremented.
+    // The guard is owned by the task functor itself (not by its body): once another stage has
+    // thrown, the task set skips the bodies of generator instances that have not started yet, and
+    // their share of the count must still be given back when the skipped functor is destroyed.
+    struct CompletionGuard {
+      explicit CompletionGuard(CompletionEventImpl* c) : completion(c) {}
+      CompletionGuard(CompletionGuard&& other) noexcept : completion(other.completion) {
+        other.completion = nullptr;
+      }
+      CompletionGuard(const CompletionGuard&) = delete;
+      DISPENSO_INLINE ~CompletionGuard() {
+        if (completion &&
+            completion->intrusiveStatus().fetch_sub(1, std::memory_order_acq_rel) == 1) {
+          completion->notify(0);
+        }
+      }
+      CompletionEventImpl* completion;
+    };
     for (ssize_t i = 0; i < numThreads; ++i) {
-      tasks_.schedule([this]() {
-        // RAII guard ensures the completion event is signaled even if an exception
-        // propagates out of pipeNext_.execute() (e.g. when ConcurrentTaskSet runs a
-        // downstream stage inline and it throws). Without this, wait() would hang on
-        // completion_->wait(0) because the count is never decremented.
-        struct CompletionGuard {
-          DISPENSO_INLINE ~CompletionGuard() {
-            if (completion->intrusiveStatus().fetch_sub(1, std::memory_order_acq_rel) == 1) {
-              completion->notify(0);
-            }
-          }
-          CompletionEventImpl* completion;
-        };
-        CompletionGuard cGuard{completion_.get()};
-
+      tasks_.schedule([this, cGuard = CompletionGuard(completion_.get())]() {
         while (!tasks_.hasException()) {
           auto op = stage_();
           if (!op) {
@@ -442,7 +449,6 @@ class Pipe<StageClass::kSingleStage, CurStage, SinkPipe> {
     ssize_t numThreads = std::max<ssize_t>(
         1, std::min(tasks_.numPoolThreads(), StageLimits<CurStage>::limit(stage_)));
     for (ssize_t i = 0; i < numThreads; ++i) {
-
       tasks_.schedule([this]() {
         while (!tasks_.hasException() && stage_()) {
         }
